@@ -39,12 +39,14 @@ import (
 	"net/http/httptest"
 	"net/url"
 	"os"
+	"path/filepath"
 	"regexp"
 	"strconv"
 	"strings"
 	"sync"
 	"sync/atomic"
 	"time"
+	"unicode/utf8"
 
 	c "github.com/buzzfeed/sso/internal/zz_verif/common"
 
@@ -53,6 +55,7 @@ import (
 	"github.com/buzzfeed/sso/internal/pkg/aead"
 	"github.com/buzzfeed/sso/internal/pkg/sessions"
 	"github.com/buzzfeed/sso/internal/pkg/singleflight"
+	"github.com/buzzfeed/sso/internal/proxy"
 )
 
 const (
@@ -374,28 +377,96 @@ func buildAuth(f *idp, statsdPort int, host, secret string, fromEnv bool) *authW
 // the proxy
 
 type proxyWorld struct {
-	W      *c.ProxyWorld
-	B      *c.Backend
-	slug   string
-	secure bool
-	base   string // expected Location without query
+	W       *c.ProxyWorld
+	B       *c.Backend
+	handler http.Handler // what cmd/sso-proxy/main.go installs: proxy.NewLoggingHandler around proxy.New's handler
+	slug    string
+	secure  bool
+	base    string // expected Location without query
+	L, V, G int64  // session TTLs of this deployment, seconds
 }
 
-func buildProxy(fa *c.FakeAuth, dir, slug string, secure bool) *proxyWorld {
+func (pw *proxyWorld) do(req *http.Request) *httptest.ResponseRecorder {
+	rec := httptest.NewRecorder()
+	pw.handler.ServeHTTP(rec, req)
+	return rec
+}
+
+// buildProxy boots sso-proxy with four upstreams (three static hosts and a rewrite route). With fromEnv the
+// configuration comes from the process environment through proxy.LoadConfig + Validate exactly as
+// cmd/sso-proxy/main.go does and the upstream file lists the upstreams in REVERSE order; otherwise through
+// common.BuildProxy (struct filled in, SetUpstreamConfigs, proxy.New). Either way requests go through
+// proxy.NewLoggingHandler, the outermost handler the binary installs.
+func buildProxy(fa *c.FakeAuth, dir string, statsdPort int, slug string, secure, fromEnv bool) *proxyWorld {
 	b := c.NewBackend("b")
-	yaml := ""
+	var ups []string
 	for i, h := range []string{hostIn1, hostIn2, hostOut} {
-		yaml += fmt.Sprintf("- service: svc%d\n  default:\n    from: %s\n    to: %s\n    options:\n      allowed_email_domains: [\"*\"]\n", i, h, b.HostPort())
+		ups = append(ups, fmt.Sprintf("- service: svc%d\n  default:\n    from: %s\n    to: %s\n    options:\n      allowed_email_domains: [\"*\"]\n", i, h, b.HostPort()))
 	}
 	// a rewrite route: every Host matching the regular expression reaches this upstream, so that
 	// sign-out is exercised on Host values containing the bytes a Host header may carry
-	yaml += fmt.Sprintf("- service: rx\n  default:\n    from: %q\n    to: %s\n    type: rewrite\n    options:\n      allowed_email_domains: [\"*\"]\n", rxFrom, b.HostPort())
-	w, err := c.BuildProxy(c.ProxyOpts{YAML: yaml, DefaultSlug: slug, CookieSecure: secure, CookieName: proxyCookie,
-		Lifetime: cfgL * time.Second, Valid: cfgV * time.Second, Grace: cfgG * time.Second, Dir: dir}, fa)
-	if err != nil {
-		broken("sso-proxy does not boot from its configuration (SetUpstreamConfigs / proxy.New): %v", err)
+	ups = append(ups, fmt.Sprintf("- service: rx\n  default:\n    from: %q\n    to: %s\n    type: rewrite\n    options:\n      allowed_email_domains: [\"*\"]\n", rxFrom, b.HostPort()))
+	if fromEnv {
+		for i, j := 0, len(ups)-1; i < j; i, j = i+1, j-1 {
+			ups[i], ups[j] = ups[j], ups[i]
+		}
 	}
-	return &proxyWorld{W: w, B: b, slug: slug, secure: secure, base: fa.Srv.URL + "/" + slug + "/sign_out"}
+	yaml := strings.Join(ups, "")
+	pw := &proxyWorld{B: b, slug: slug, secure: secure, base: fa.Srv.URL + "/" + slug + "/sign_out"}
+	var cfg proxy.Configuration
+	if !fromEnv {
+		w, err := c.BuildProxy(c.ProxyOpts{YAML: yaml, DefaultSlug: slug, CookieSecure: secure, CookieName: proxyCookie,
+			Lifetime: cfgL * time.Second, Valid: cfgV * time.Second, Grace: cfgG * time.Second, Dir: dir}, fa)
+		if err != nil {
+			broken("sso-proxy does not boot from its configuration (SetUpstreamConfigs / proxy.New): %v", err)
+		}
+		pw.W, cfg = w, w.Cfg
+	} else {
+		file := filepath.Join(dir, fmt.Sprintf("upstreams-%s-%v.yml", slug, secure))
+		c.Must(os.WriteFile(file, []byte(yaml), 0o644))
+		env := map[string]string{
+			"PROVIDER_URL_EXTERNAL": fa.Srv.URL,
+			"CLIENT_ID":             clientID, "CLIENT_SECRET": proxySecret,
+			"SESSION_COOKIE_SECRET": base64.StdEncoding.EncodeToString(c.FixedSecret),
+			"SESSION_COOKIE_SECURE": strconv.FormatBool(secure), "SESSION_COOKIE_NAME": proxyCookie,
+			"SESSION_TTL_LIFETIME": fmt.Sprintf("%ds", cfgL), "SESSION_TTL_VALID": fmt.Sprintf("%ds", cfgV),
+			"UPSTREAM_CONFIGFILE": file, "UPSTREAM_CLUSTER": "sso", "UPSTREAM_SCHEME": "http", "UPSTREAM_DEFAULT_PROVIDER": slug,
+			"METRICS_STATSD_HOST": "127.0.0.1", "METRICS_STATSD_PORT": strconv.Itoa(statsdPort),
+			"LOGGING_ENABLE": "false",
+		}
+		for k, v := range env {
+			os.Setenv(k, v)
+		}
+		var err error
+		cfg, err = proxy.LoadConfig()
+		for k := range env {
+			os.Unsetenv(k)
+		}
+		if err != nil {
+			broken("proxy.LoadConfig: %v", err)
+		}
+		if err := cfg.Validate(); err != nil {
+			broken("proxy configuration from the environment does not validate: %v", err)
+		}
+		if err := proxy.SetUpstreamConfigs(&cfg.UpstreamConfigs, cfg.SessionConfig.CookieConfig, &cfg.ServerConfig); err != nil {
+			broken("proxy.SetUpstreamConfigs: %v", err)
+		}
+		sc, err := proxy.NewStatsdClient(cfg.MetricsConfig.StatsdConfig.Host, cfg.MetricsConfig.StatsdConfig.Port)
+		c.Must(err)
+		p, err := proxy.New(cfg, sc)
+		if err != nil {
+			broken("proxy.New: %v", err)
+		}
+		cipher, err := c.NewCipher(c.FixedSecret)
+		c.Must(err)
+		pw.W = &c.ProxyWorld{Handler: p, Auth: fa, Cfg: cfg, Secret: c.FixedSecret, Cipher: cipher, CookieName: proxyCookie}
+	}
+	sc, err := proxy.NewStatsdClient("127.0.0.1", statsdPort)
+	c.Must(err)
+	pw.handler = proxy.NewLoggingHandler(io.Discard, pw.W.Handler, cfg.LoggingConfig, sc) // cmd/sso-proxy/main.go:63-67
+	t := cfg.SessionConfig.TTLConfig
+	pw.L, pw.V, pw.G = int64(t.Lifetime/time.Second), int64(t.Valid/time.Second), int64(t.GracePeriod/time.Second)
+	return pw
 }
 
 func rawRequest(raw string) *http.Request {
@@ -530,7 +601,17 @@ func genProxyVar(r *c.Rng) proxyVar {
 		n := 1 + r.Intn(3)
 		for k := 0; k < n; k++ {
 			o := other[r.Intn(len(other))]
-			switch r.Intn(11) {
+			switch r.Intn(16) {
+			case 11: // a script, not a navigation (the proxy has an XHR convention for errors and sign-in)
+				v.Headers = append(v.Headers, [2]string{"X-Requested-With", "XMLHttpRequest"})
+			case 12:
+				v.Headers = append(v.Headers, [2]string{"Accept", []string{"application/json", "application/json, text/plain, */*", "text/html;q=0.1"}[r.Intn(3)]})
+			case 13:
+				v.Headers = append(v.Headers, [2]string{"Sec-Fetch-Mode", "cors"}, [2]string{"Sec-Fetch-Dest", "empty"}, [2]string{"Sec-Fetch-Site", "same-origin"})
+			case 14:
+				v.Headers = append(v.Headers, [2]string{"Content-Type", "application/json"})
+			case 15:
+				v.Headers = append(v.Headers, [2]string{"Purpose", "prefetch"}, [2]string{"User-Agent", "kube-probe/1.30"})
 			case 0:
 				v.Headers = append(v.Headers, [2]string{"X-Forwarded-Host", o})
 			case 1:
@@ -603,7 +684,14 @@ func (h *history) proxyStep(pw *proxyWorld, host string, originForm bool, method
 		raw += kv[0] + ": " + kv[1] + "\r\n"
 	}
 	if v.Body != "" {
-		raw += "Content-Type: application/x-www-form-urlencoded\r\nContent-Length: " + strconv.Itoa(len(v.Body)) + "\r\n"
+		hasCT := false
+		for _, kv := range v.Headers {
+			hasCT = hasCT || kv[0] == "Content-Type"
+		}
+		if !hasCT {
+			raw += "Content-Type: application/x-www-form-urlencoded\r\n"
+		}
+		raw += "Content-Length: " + strconv.Itoa(len(v.Body)) + "\r\n"
 	}
 	switch cookieKind {
 	case 1:
@@ -640,7 +728,11 @@ func (h *history) proxyStep(pw *proxyWorld, host string, originForm bool, method
 	raw += "\r\n" + v.Body
 	req, rerr := http.ReadRequest(bufio.NewReader(strings.NewReader(raw)))
 	if rerr != nil {
-		if len(vs) > 0 {
+		if !originForm {
+			// this Host cannot be written into an absolute-form request line: a client can only send it origin-form
+			return h.proxyStep(pw, host, true, method, cookieKind, vs...)
+		}
+		if len(vs) > 0 && v.Query != "" {
 			// net/http refuses this request line (a real server answers 400 before any handler runs):
 			// send the same variation with the query escaped once more
 			v.Query = url.QueryEscape(v.Query)
@@ -651,7 +743,7 @@ func (h *history) proxyStep(pw *proxyWorld, host string, originForm bool, method
 	req.RemoteAddr = remoteAddr
 	t0 := time.Now()
 	clock := t0.Unix()
-	rec := pw.W.Do(req)
+	rec := pw.do(req)
 	guard(t0)
 	eff, _ := c.CookieEffect(rec, proxyCookie)
 	live := false
@@ -1013,7 +1105,7 @@ func (h *history) reuseStep(pw *proxyWorld, host string, s psess, vnow int64, ba
 	})
 	pw.B.Take()
 	t0 := time.Now()
-	rec := pw.W.Do(req)
+	rec := pw.do(req)
 	guard(t0)
 	served := len(pw.B.Take()) >= 1
 	calls := pw.W.Auth.TakeCalls()
@@ -1039,7 +1131,7 @@ func (h *history) reuseStep(pw *proxyWorld, host string, s psess, vnow int64, ba
 		}
 	}
 	coq := fmt.Sprintf("SReuse {| ro_cfg := {| c_slug := %s; c_L := %s; c_V := %s; c_G := %s |}; ro_host := %s; ro_now := %s; ro_session := %s; ro_answers := {| a_refresh := %s; a_refresh_body := Some (%s, 1800%%Z); a_validate := %s; a_profile := St 200%%Z; a_profile_body := Some [] |}; ro_served := %s; ro_status := %s; ro_signin := %s; ro_effect := %d; ro_calls := %s |}",
-		c.Str(pw.slug), c.Z(cfgL), c.Z(cfgV), c.Z(cfgG), c.Str(host), c.Z(vnow), s.coq(), st(ba.Refresh), c.Str("at-new"), st(ba.Validate),
+		c.Str(pw.slug), c.Z(pw.L), c.Z(pw.V), c.Z(pw.G), c.Str(host), c.Z(vnow), s.coq(), st(ba.Refresh), c.Str("at-new"), st(ba.Validate),
 		c.Bool(served), c.Z(int64(rec.Code)), c.Bool(signin), effN, c.List(callsCoq))
 	h.steps = append(h.steps, coq)
 	h.js = append(h.js, map[string]interface{}{"step": "reuse_saved_proxy_cookie", "host": host, "session": s, "now": vnow, "back_channel": ba,
@@ -1072,7 +1164,8 @@ func (e *env) sess(i int) asess {
 
 // hosts of the rewrite route; every byte is one net/http accepts in a Host header ('%' is the only
 // one of them that URL.String escapes)
-var rxHosts = []string{"team.rx.proxy.test", "a%41b.rx.proxy.test", "x_y~z.rx.proxy.test", "a!b$c&d'e(f)g*h+i,j;k=l.rx.proxy.test", "100%.rx.proxy.test", "UPPER.rx.proxy.test"}
+var rxHosts = []string{"team.rx.proxy.test", "a%41b.rx.proxy.test", "x_y~z.rx.proxy.test", "a!b$c&d'e(f)g*h+i,j;k=l.rx.proxy.test", "100%.rx.proxy.test", "UPPER.rx.proxy.test",
+	"xn--bcher-kva.rx.proxy.test", "b\xc3\xbccher.rx.proxy.test", "\xff\xfe.rx.proxy.test", strings.Repeat("a", 63) + "." + strings.Repeat("b", 150) + ".rx.proxy.test"}
 
 var cookieKinds = []string{"sealed", "sealed", "sealed", "sealed", "expired", "none", "junk", "foreign", "truncated", "wrongname"}
 var ageLattice = []int64{0, 0, 0, 60, 180, 240, 360, 600, 86400, -60, -3600}
@@ -1141,8 +1234,12 @@ func (e *env) flow(i int) c.Case {
 			revoked = true
 		}
 	}
-	// saved copies of the old proxy session come back
+	// saved copies of the old proxy session come back (not on a Host that is not valid UTF-8: the session's
+	// JSON codec replaces such bytes, so no session can be bound to that host — not this property's business)
 	n := 1 + r.Intn(2)
+	if !utf8.ValidString(host) {
+		n = 0
+	}
 	for k := 0; k < n; k++ {
 		vnow := int64(100000)
 		ps := psess{Slug: pw.slug, Email: s.Email, Access: s.Access, Refresh: s.Refresh, Upstream: host,
@@ -1164,8 +1261,52 @@ func (e *env) flow(i int) c.Case {
 	return h.emit()
 }
 
+// storm: several browsers visit the proxy's sign-out URL on different hosts at the same time (free-running
+// goroutines). The answer to each request depends on that request alone, so every visit is judged
+// separately by the same monitor, whatever the interleaving was.
+func (e *env) storm(i int) c.Case {
+	r := e.r
+	h := newHistory()
+	pw := e.pickProxy()
+	n := 6 + r.Intn(6)
+	hs := make([]*history, n)
+	hosts := append([]string{hostIn1, hostIn2, hostOut}, rxHosts...)
+	type job struct {
+		host   string
+		origin bool
+		kind   int
+		v      proxyVar
+	}
+	jobs := make([]job, n)
+	for k := range jobs {
+		jobs[k] = job{hosts[r.Intn(len(hosts))], !r.Chance(0.2), r.Intn(3), proxyVar{}} // cookie kinds that never call the back channel
+		if r.Chance(0.4) {
+			jobs[k].v = genProxyVar(r)
+		}
+	}
+	var wg sync.WaitGroup
+	for k := range jobs {
+		k := k
+		hs[k] = newHistory()
+		wg.Add(1)
+		go func() {
+			defer wg.Done()
+			hs[k].proxyStep(pw, jobs[k].host, jobs[k].origin, "GET", jobs[k].kind, jobs[k].v)
+		}()
+	}
+	wg.Wait()
+	for k := range hs {
+		h.steps = append(h.steps, hs[k].steps...)
+		h.js = append(h.js, hs[k].js...)
+		for _, row := range hs[k].tab.rows {
+			h.tab.rows = append(h.tab.rows, row)
+		}
+	}
+	return h.emit()
+}
+
 // conc: two or three users confirm sign-out at the same time.
-func (e *env) conc(i int, pattern int, slug string, kinds []string) c.Case {
+func (e *env) conc(i int, pattern int, slug string, kinds []string, force ...string) c.Case {
 	r := e.r
 	h := newHistory()
 	aw := e.auths[0]
@@ -1223,8 +1364,11 @@ func (e *env) conc(i int, pattern int, slug string, kinds []string) c.Case {
 	for k := range ss {
 		if _, ok := outs[tokOf(ss[k])]; !ok {
 			kind := []string{"ok", "ok", "ok", "already", "other400", "503"}[r.Intn(6)]
-			if k == 0 && r.Chance(0.6) {
+			if k == 0 && r.Chance(0.5) {
 				kind = "ok"
+			}
+			if len(force) > 0 {
+				kind = force[0]
 			}
 			outs[tokOf(ss[k])] = mkOutcome(kind, slug)
 			answers[tokOf(ss[k])] = outs[tokOf(ss[k])].Ans
@@ -1556,6 +1700,29 @@ func (e *env) corpus() []func() c.Case {
 			return h.emit()
 		})
 	}
+	// request shapes other than a browser navigation: scripts (XHR / fetch), JSON clients, prefetchers, probes
+	out = append(out, func() c.Case {
+		h := newHistory()
+		shapes := [][][2]string{{{"X-Requested-With", "XMLHttpRequest"}}, {{"Accept", "application/json"}}, {{"X-Requested-With", "XMLHttpRequest"}, {"Accept", "application/json"}},
+			{{"Sec-Fetch-Mode", "cors"}, {"Sec-Fetch-Dest", "empty"}}, {{"Content-Type", "application/json"}}, {{"Purpose", "prefetch"}}, {{"x-requested-with", "xmlhttprequest"}}}
+		for k, sh := range shapes {
+			pw := e.proxies[k%len(e.proxies)]
+			h.proxyStep(pw, hostIn1, true, "GET", 3, proxyVar{Headers: sh})
+			h.proxyStep(pw, hostIn2, true, "POST", 2, proxyVar{Headers: sh, Body: "x=1"})
+		}
+		return h.emit()
+	})
+	// one sign-out confirmed twice / three times at once (double click, two tabs, an impatient client's retry)
+	// under every IdP outcome: the joiners must be told exactly what the caller whose call ran is told
+	for _, slug := range []string{"google", "okta"} {
+		for k, kind := range []string{"503", "other400", "429", "reset", "500", "notjson400", "wrongphrase", "already", "ok"} {
+			slug, kind, n := slug, kind, 2+k%2
+			out = append(out, func() c.Case {
+				kinds := []string{"post", "post", "post"}[:n]
+				return e.conc(9200+n, 4, slug, kinds, kind)
+			})
+		}
+	}
 	// client-controlled parts of the proxy's sign-out request: every parameter name x the network-path value
 	for k, name := range redirectParams {
 		k, name := k, name
@@ -1704,6 +1871,14 @@ func main() {
 		}
 	}()
 	port := pc.LocalAddr().(*net.UDPAddr).Port
+	// sealed deadlines and signature timestamps are instants: they must mean the same wherever the process
+	// runs. Two of three seeds run the whole world in a zone east / west of UTC.
+	switch a.Seed % 3 {
+	case 1:
+		time.Local = time.FixedZone("UTC+13:45", 13*3600+45*60)
+	case 2:
+		time.Local = time.FixedZone("UTC-9:30", -(9*3600 + 30*60))
+	}
 	f := newIdp()
 	defer f.srv.Close()
 	fa := c.NewFakeAuth()
@@ -1714,7 +1889,7 @@ func main() {
 	dir := c.Scratch(a.Out)
 	for _, slug := range []string{"google", "okta"} {
 		for _, secure := range []bool{true, false} {
-			e.proxies = append(e.proxies, buildProxy(fa, dir, slug, secure))
+			e.proxies = append(e.proxies, buildProxy(fa, dir, port, slug, secure, (slug == "okta") != secure))
 		}
 	}
 	var cases []c.Case
@@ -1725,11 +1900,16 @@ func main() {
 	for i := 0; i < a.N; i++ {
 		i := i
 		switch {
+		case i%25 == 7:
+			cases = append(cases, e.runGuarded(r, func() c.Case { return e.storm(i) }))
 		case i%10 == 5:
 			cases = append(cases, e.runGuarded(r, func() c.Case {
 				kinds := [][]string{{"post", "post"}, {"post", "post"}, {"post", "post", "post"}, {"post", "junk", "post"}, {"post", "get", "post"}, {"none", "post", "post"}}[e.r.Intn(6)]
 				slug := []string{"google", "okta"}[e.r.Intn(2)]
 				pattern := e.r.Intn(7)
+				if e.r.Chance(0.3) { // one session confirmed several times at once, the revoke failing
+					return e.conc(i, 4, slug, kinds, []string{"503", "other400", "429", "reset", "500"}[e.r.Intn(5)])
+				}
 				return e.conc(i, pattern, slug, kinds)
 			}))
 		case i%10 < 6:
